@@ -258,6 +258,47 @@ def part_constants(ctx, rng, work, events, meta, quick):
                 meta.append({"part": "constants", "source": name, "order": perm})
 
 
+def part_setup_overrides(ctx, work, events, meta):
+    """ConstSetup.tla (re-application of the constants by the set-up functions, keyword overrides, rp side effect) replayed:
+    every keyword subset TLC enumerates is passed to the real setupCylindricalGrid; the constants returned must be the model's."""
+    import warnings
+    from pygyro.initialisation.setups import setupCylindricalGrid
+    NEWV = {"kTi": 0.31, "rMax": 13.0, "rMin": 0.5, "rp": 4.25}
+    for custom in (True, False):
+        cfg = ("INIT Init\nNEXT Next\nCONSTANTS CustomRp = %s KeepRule = TRUE\nINVARIANT NoOverrideNoChange\nINVARIANT OverridesApplied\n"
+               "INVARIANT Dump\nCHECK_DEADLOCK FALSE\n" % ("TRUE" if custom else "FALSE"))
+        r = ctx.tlc("ConstSetup", cfg, what="set-up re-application of constants, every keyword subset, custom rp %s" % custom, workers=1)
+        if r.violated:
+            raise Machinery("ConstSetup.tla violates %s: %s" % (r.violated, (r.trace_text or "")[:600]))
+        over = {"rp": 5.5} if custom else {}
+        p = scenarios.write_constants(os.path.join(work, "c_setup_%s.json" % custom), **over)
+        base = dict(scenarios.CONSTANTS, **over)
+        seen = set()
+        for row in r.rows:
+            kw = tuple(sorted(row["kw"]))
+            if kw in seen:
+                continue
+            seen.add(kw)
+            try:
+                with warnings.catch_warnings():
+                    warnings.simplefilter("ignore")
+                    g, cc, _ = setupCylindricalGrid(layout="v_parallel", constantFile=p, **{k: NEWV[k] for k in kw})
+                rmin = NEWV["rMin"] if row["rmin"] == "new" else base["rMin"]
+                rmax = NEWV["rMax"] if row["rmax"] == "new" else base["rMax"]
+                want = {"rMin": rmin, "rMax": rmax, "kTi": NEWV["kTi"] if row["kti"] == "new" else base["kTi"],
+                        "rp": {"new": NEWV["rp"], "mean": 0.5 * (rmin + rmax), "rp": base.get("rp")}[row["rp"]]}
+                got = {k: float(getattr(cc, k)) for k in want}
+                same = all(abs(got[k] - want[k]) <= 1e-14 * max(1.0, abs(want[k])) for k in want)
+                events.append({"k": "const", "ok": True, "same": bool(same)})
+                meta.append({"part": "constants", "source": "set-up keywords %s, file %s rp" % (list(kw), "with" if custom else "without"),
+                             "order": "through setupCylindricalGrid", "diff": [k for k in want if got[k] != want[k]], "got": got, "want": want})
+            except Exception as ex:
+                events.append({"k": "const", "ok": False, "same": False, "err": "%s: %s" % (type(ex).__name__, ex)})
+                meta.append({"part": "constants", "source": "set-up keywords %s" % list(kw), "order": "through setupCylindricalGrid"})
+        if len(seen) != 16:
+            raise Machinery("ConstSetup printed %d keyword subsets, expected 16" % len(seen))
+
+
 # ---------------------------------------------------------------- real driver runs
 def drv(job):
     env = dict(os.environ, VERIF_REPO=os.environ.get("VERIF_REPO", "/repo"), PYTHONHASHSEED="0")
@@ -365,6 +406,7 @@ def run(ctx):
         part_roundtrip(ctx, rng, work, events, meta, quick)
         part_latest(ctx, rng, work, events, meta, quick)
         part_constants(ctx, rng, work, events, meta, quick)
+        part_setup_overrides(ctx, work, events, meta)
         part_driver(ctx, rng, work, events, meta, quick)
     finally:
         shutil.rmtree(work, ignore_errors=True)
